@@ -35,6 +35,7 @@ type HarnessSpec struct {
 	Params    map[string]int `json:"params"` // harness-visible bounds (ndParam)
 	Timeout   int    `json:"timeout_s"`
 	QueryTO   int    `json:"query_timeout_s"` // per solver query (default 60)
+	LoopObl   string `json:"loopobl"`         // if set: a loop that can exceed the unwinding bound is a VIOLATION of this obligation (to be confirmed natively), not an unwinding failure
 	Bounds    string `json:"bounds"`  // human-readable statement of the bounds
 	Outside   string `json:"outside"` // what lies outside
 	Stubs     []string `json:"stubs"`
@@ -457,6 +458,7 @@ func runHarness(verifDir string, spec HarnessSpec, seed int, thorough bool) (*Ha
 	defer solver.Close()
 	e := newEngine(prog, pkgs, spec, solver)
 	e.harness = spec.Name
+	e.loopObl = spec.LoopObl
 	dbgEngine = e
 	if os.Getenv("GOSYM_FNSTATS") != "" {
 		e.fnStats = map[string][3]int{}
